@@ -3,7 +3,9 @@
 Instantiation grid: Digits x Narrowest (limb = unsigned Narrowest of 8/16/32/64 bits, signed and unsigned),
 one translation unit per instantiation (uintwide_t instantiates slowly under sanitizers).  Fixed corner
 instantiations are always present (4-limb unrolled multiply, single-bit-over-limb-boundary widths, 128-digit
-signed = first multi-limb width); the rest of the grid is drawn from the seed.
+signed = first multi-limb width); the rest of the grid is drawn from the seed.  Instantiations with >= 129 limbs
+(Karatsuba multiplication; 8-bit limbs only inside the 65..2048-digit range) have their own TUs (`go_kara`, dense
+operands): always 2048 bits unsigned and 1568 bits (odd split: open finding), plus one drawn from the seed.
 """
 import random
 
@@ -31,6 +33,47 @@ def instantiable(d, t):
     while width % 2 == 0:
         width //= 2
     return width <= 63      # uintwide_t: Width2 must be 2^n times 1..63
+
+
+CUTOFF, THRESHOLD = 48, 129   # eval_multiply_kara_n_by_n_to_2n: schoolbook below/at 48 limbs; Karatsuba from 129 limbs
+
+
+def kara_odd_split(n):
+    """Halving the limb count reaches an odd count above the cutoff (the defective split, C10.karatsuba_odd_split)."""
+    while n > CUTOFF:
+        if n % 2:
+            return True
+        n //= 2
+    return False
+
+
+# every 8-bit-limb instantiation that takes the Karatsuba overload inside the property's range: (digits, type, limbs)
+KARA_ALL = [(8 * n - (1 if t == 'i8' else 0), t) for n in range(THRESHOLD, 257) for t in ('u8', 'i8')
+            if (lambda m: m <= 63)(n // (n & -n))]
+KARA_FIXED_QUICK = [(2048, 'u8'),   # 256 limbs: three Karatsuba levels (256 -> 128 -> 64 -> 32), no odd split
+                    (1568, 'u8')]   # 196 -> 98 -> 49 -> 24+24: odd split, open finding C10.karatsuba_odd_split
+
+
+def kara_grid(tier, seed):
+    rnd = random.Random(seed * 104729 + 1010)
+    combos = list(KARA_FIXED_QUICK)
+    rest = [c for c in KARA_ALL if c not in combos]
+    sound = [c for c in rest if not kara_odd_split(storage(*c)[1])]
+    # the seed-chosen one is drawn from the unaffected instantiations twice out of three times
+    extra = 1 if tier == 'quick' else 10
+    for _ in range(extra):
+        pool = sound if rnd.random() < 0.67 else rest
+        c = rnd.choice(pool)
+        if c not in combos:
+            combos.append(c)
+    if tier == 'thorough':
+        combos += [(1056, 'u8'), (1055, 'i8'), (1536, 'u8'), (2016, 'u8'), (2015, 'i8')]
+    out = []
+    for c in combos:
+        if c not in out:
+            assert instantiable(*c) and storage(*c)[1] >= THRESHOLD
+            out.append(c)
+    return out
 
 
 FIXED_QUICK = [(200, 'i32'), (200, 'u32'), (128, 'i8'), (129, 'u8'), (200, 'u64'), (255, 'i64'), (128, 'i16'),
@@ -80,6 +123,13 @@ def tus(tier, seed):
         res.append(dict(name=name, src=body, compiler='g++', run_timeout=1500))
         if tier == 'thorough' and i % 5 == 0:
             res.append(dict(name=name + '_clang', src=body, compiler='clang++', run_timeout=1500))
+    for i, (d, t) in enumerate(kara_grid(tier, seed)):
+        body = hdr + 'int main(){ install(); Rng rng(seed_from_env()*1000003ull+%d);\n' % (d * 137 + (7 if t[0] == 'i' else 0))
+        body += '  go_kara<wide_integer<%d, %s>>(rng);\n}\n' % (d, CT[t])
+        name = 'C10_kara_%d_%s' % (d, t)
+        res.append(dict(name=name, src=body, compiler='g++', run_timeout=1500))
+        if tier == 'thorough' and i % 4 == 0:
+            res.append(dict(name=name + '_clang', src=body, compiler='clang++', run_timeout=1500))
     body = hdr + 'int main(){ install();\n'
     for d, t in BUILTIN:
         assert storage(d, t) is None
@@ -93,9 +143,14 @@ THOROUGH_SCALE = 3
 RULE = ("per compiled wide_integer<Digits, Narrowest>: corner values (0, 1, -1, max, lowest, limb boundaries) and seeded values built "
         "from limb patterns {0, ~0, 1, 1<<k, 0111.., 1000.., random} cross-multiplied for + - * & | ^ and comparisons; divisors of "
         "1..n limbs with top limb ~0 / 1 / 1000.. / 0111.. against numerators q*b, q*b-1, q*b+r and add-back shapes; shift counts "
-        "{0,1,w-1,w,w+1,N-1,...,>=N,<0}; non-trivial = the property constrains the result (divisor non-zero, 0 <= shift < N)")
+        "{0,1,w-1,w,w+1,N-1,...,>=N,<0}; >= 129-limb instantiations (8-bit limbs, 1056..2048 bits: Karatsuba) get dense "
+        "operands (random limbs, all-ones, 0xFE../0xF0../0xCC.. runs over the width, half, three quarters, equal halves) "
+        "cross-multiplied, in the quick tier too (2048 bits, 1568 bits = odd split, one width by seed); non-trivial = the property constrains the result (divisor non-zero, 0 <= shift < N)")
 TRUSTED = ["harness reads limbs through uintwide_t::crepresentation() and writes them through representation()",
-           "Karatsuba multiplication (>= 129 limbs) is compared with the schoolbook model but not transcribed"]
+           "Karatsuba multiplication (>= 129 limbs) is transcribed with its in-place memory (Cnl.Wide.kara) and compared limb for limb; "
+           "on the odd-split limb counts (C10.karatsuba_odd_split) the product depends on uninitialised storage, so the "
+           "implementation's result is echoed and judged by the exact-arithmetic oracle alone; Karatsuba exactness on the "
+           "remaining limb counts is tested, not proved (KaratsubaCorrectEvenSplit is a definition)"]
 ASSUMPTIONS = ["N is the storage width (limb width x limb count), e.g. wide_integer<200,int> is a 224-bit integer",
                "multi-limb wide_integer has no operator~ and no mixed-signedness or mixed-width multi-limb operators (do not compile): outside the quantifier",
                "numeric_limits<wide_integer>::min() returns 1 (library-wide convention, also elastic_integer): modelled, not constrained",
